@@ -1,5 +1,6 @@
 import CasbinVerif.Driver.Effector
 import CasbinVerif.Driver.Store
+import CasbinVerif.Driver.Enforcer
 /-
   casbin-model: the line-protocol driver.  Reads one operation per line on stdin and prints, for
   every line, `<model observation> ;; <spec observation> ;; <wf>` where `wf` tells whether the line
@@ -11,6 +12,7 @@ open Casbin Casbin.Driver
 structure DState where
   comp : String := ""
   store : StoreSt := {}
+  enf : EnfSt := {}
 
 def fmt (m s : String) (wf : Bool) : String := s!"{m} ;; {s} ;; {if wf then 1 else 0}"
 
@@ -26,6 +28,10 @@ def stepLine (st : DState) (line : String) : DState × String :=
     if comp == "store" then
       match storeOp st.store ts with
       | some (s', m, s, wf) => ({ st with store := s' }, fmt m s wf)
+      | none => (st, "bad-op")
+    else if comp == "enforcer" then
+      match enfOp st.enf ts with
+      | some (s', m, s, wf) => ({ st with enf := s' }, fmt m s wf)
       | none => (st, "bad-op")
     else (st, "bad-op")
 
